@@ -4,10 +4,12 @@ import (
 	"fmt"
 	"math/big"
 	"sort"
+	"strconv"
 	"strings"
 )
 
-// Term is an SMT term. Terms are immutable and hash-consed by their printed form.
+// Term is an SMT term. Terms are immutable and hash-consed: structurally equal terms are the same pointer,
+// Key() is a short unique identity (operator + ids of the arguments), never the expanded text.
 type Term struct {
 	Op   string // "int","bool","var","app", or SMT operator
 	Args []*Term
@@ -16,6 +18,7 @@ type Term struct {
 	B    bool
 	Name string
 	key  string
+	id   int
 }
 
 const (
@@ -25,64 +28,109 @@ const (
 )
 
 var (
-	TTrue  = &Term{Op: "bool", B: true, Sort: SBool}
-	TFalse = &Term{Op: "bool", B: false, Sort: SBool}
+	internTab = map[string]*Term{}
+	termN     int
+	TTrue     = mk(&Term{Op: "bool", B: true, Sort: SBool})
+	TFalse    = mk(&Term{Op: "bool", B: false, Sort: SBool})
 )
 
-func (t *Term) Key() string {
-	if t.key == "" {
-		t.key = t.render()
-	}
-	return t.key
-}
-func (t *Term) String() string { return t.Key() }
-
-func (t *Term) render() string {
+func mk(t *Term) *Term {
+	var sb strings.Builder
+	sb.WriteString(t.Op)
+	sb.WriteByte('|')
+	sb.WriteString(t.Name)
+	sb.WriteByte('|')
+	sb.WriteString(t.Sort)
+	sb.WriteByte('|')
 	switch t.Op {
 	case "int":
-		if t.I.Sign() < 0 {
-			return "(- " + new(big.Int).Neg(t.I).String() + ")"
-		}
-		return t.I.String()
+		sb.WriteString(t.I.String())
 	case "bool":
 		if t.B {
-			return "true"
+			sb.WriteByte('1')
 		}
-		return "false"
-	case "var":
-		return t.Name
-	case "app":
-		if len(t.Args) == 0 {
-			return t.Name
-		}
-		var sb strings.Builder
-		sb.WriteString("(" + t.Name)
-		for _, a := range t.Args {
-			sb.WriteString(" " + a.Key())
-		}
-		sb.WriteString(")")
-		return sb.String()
 	}
-	var sb strings.Builder
-	sb.WriteString("(" + t.Op)
 	for _, a := range t.Args {
-		sb.WriteString(" " + a.Key())
+		sb.WriteByte(',')
+		sb.WriteString(strconv.Itoa(a.id))
 	}
-	sb.WriteString(")")
+	k := sb.String()
+	if x, ok := internTab[k]; ok {
+		return x
+	}
+	termN++
+	t.id = termN
+	t.key = k
+	internTab[k] = t
+	return t
+}
+
+func (t *Term) Key() string { return t.key }
+func (t *Term) ID() int     { return t.id }
+
+// String renders the term as SMT-LIB text, truncated for display.
+func (t *Term) String() string {
+	var sb strings.Builder
+	t.renderTo(&sb, 0, 4000)
 	return sb.String()
 }
 
-func IntC(i int64) *Term       { return &Term{Op: "int", I: big.NewInt(i), Sort: SInt} }
-func IntB(i *big.Int) *Term    { return &Term{Op: "int", I: new(big.Int).Set(i), Sort: SInt} }
+func (t *Term) renderTo(sb *strings.Builder, depth, limit int) {
+	if sb.Len() > limit {
+		sb.WriteString("…")
+		return
+	}
+	switch t.Op {
+	case "int":
+		if t.I.Sign() < 0 {
+			sb.WriteString("(- " + new(big.Int).Neg(t.I).String() + ")")
+		} else {
+			sb.WriteString(t.I.String())
+		}
+		return
+	case "bool":
+		if t.B {
+			sb.WriteString("true")
+		} else {
+			sb.WriteString("false")
+		}
+		return
+	case "var":
+		sb.WriteString(t.Name)
+		return
+	case "constarr":
+		sb.WriteString("((as const " + t.Sort + ") ")
+		t.Args[0].renderTo(sb, depth+1, limit)
+		sb.WriteString(")")
+		return
+	}
+	head := t.Op
+	if t.Op == "app" {
+		head = t.Name
+		if len(t.Args) == 0 {
+			sb.WriteString(head)
+			return
+		}
+	}
+	sb.WriteString("(" + head)
+	for _, a := range t.Args {
+		sb.WriteByte(' ')
+		a.renderTo(sb, depth+1, limit)
+	}
+	sb.WriteString(")")
+}
+
+func IntC(i int64) *Term       { return mk(&Term{Op: "int", I: big.NewInt(i), Sort: SInt}) }
+func IntB(i *big.Int) *Term    { return mk(&Term{Op: "int", I: new(big.Int).Set(i), Sort: SInt}) }
 func BoolC(b bool) *Term {
 	if b {
 		return TTrue
 	}
 	return TFalse
 }
-func Var(name, sort string) *Term { return &Term{Op: "var", Name: name, Sort: sort} }
+func Var(name, sort string) *Term { return mk(&Term{Op: "var", Name: name, Sort: sort}) }
 func App(name, sort string, args ...*Term) *Term {
-	return &Term{Op: "app", Name: name, Sort: sort, Args: args}
+	return mk(&Term{Op: "app", Name: name, Sort: sort, Args: args})
 }
 
 func (t *Term) IsConstInt() bool  { return t.Op == "int" }
@@ -97,7 +145,7 @@ func Not(a *Term) *Term {
 	if a.Op == "not" {
 		return a.Args[0]
 	}
-	return &Term{Op: "not", Args: []*Term{a}, Sort: SBool}
+	return mk(&Term{Op: "not", Args: []*Term{a}, Sort: SBool})
 }
 
 func And(as ...*Term) *Term {
@@ -135,7 +183,7 @@ func And(as ...*Term) *Term {
 	if len(out) == 1 {
 		return out[0]
 	}
-	return &Term{Op: "and", Args: out, Sort: SBool}
+	return mk(&Term{Op: "and", Args: out, Sort: SBool})
 }
 
 func Or(as ...*Term) *Term {
@@ -173,7 +221,7 @@ func Or(as ...*Term) *Term {
 	if len(out) == 1 {
 		return out[0]
 	}
-	return &Term{Op: "or", Args: out, Sort: SBool}
+	return mk(&Term{Op: "or", Args: out, Sort: SBool})
 }
 
 func Implies(a, b *Term) *Term {
@@ -186,7 +234,7 @@ func Implies(a, b *Term) *Term {
 	if b.IsFalse() {
 		return Not(a)
 	}
-	return &Term{Op: "=>", Args: []*Term{a, b}, Sort: SBool}
+	return mk(&Term{Op: "=>", Args: []*Term{a, b}, Sort: SBool})
 }
 
 func Iff(a, b *Term) *Term { return Eq(a, b) }
@@ -209,7 +257,7 @@ func Ite(c, a, b *Term) *Term {
 			return Not(c)
 		}
 	}
-	return &Term{Op: "ite", Args: []*Term{c, a, b}, Sort: a.Sort}
+	return mk(&Term{Op: "ite", Args: []*Term{c, a, b}, Sort: a.Sort})
 }
 
 func Eq(a, b *Term) *Term {
@@ -247,7 +295,7 @@ func Eq(a, b *Term) *Term {
 	if a.Key() > b.Key() {
 		a, b = b, a
 	}
-	return &Term{Op: "=", Args: []*Term{a, b}, Sort: SBool}
+	return mk(&Term{Op: "=", Args: []*Term{a, b}, Sort: SBool})
 }
 
 func Neq(a, b *Term) *Term { return Not(Eq(a, b)) }
@@ -276,7 +324,7 @@ func cmpOp(op string, a, b *Term) *Term {
 	case ">=":
 		return cmpOp("<=", b, a)
 	}
-	return &Term{Op: op, Args: []*Term{a, b}, Sort: SBool}
+	return mk(&Term{Op: op, Args: []*Term{a, b}, Sort: SBool})
 }
 func Lt(a, b *Term) *Term { return cmpOp("<", a, b) }
 func Le(a, b *Term) *Term { return cmpOp("<=", a, b) }
@@ -293,7 +341,7 @@ func Add(a, b *Term) *Term {
 	if b.IsConstInt() && b.I.Sign() == 0 {
 		return a
 	}
-	return &Term{Op: "+", Args: []*Term{a, b}, Sort: SInt}
+	return mk(&Term{Op: "+", Args: []*Term{a, b}, Sort: SInt})
 }
 func Sub(a, b *Term) *Term {
 	if a.IsConstInt() && b.IsConstInt() {
@@ -305,7 +353,7 @@ func Sub(a, b *Term) *Term {
 	if a.Key() == b.Key() {
 		return IntC(0)
 	}
-	return &Term{Op: "-", Args: []*Term{a, b}, Sort: SInt}
+	return mk(&Term{Op: "-", Args: []*Term{a, b}, Sort: SInt})
 }
 func Mul(a, b *Term) *Term {
 	if a.IsConstInt() && b.IsConstInt() {
@@ -320,7 +368,7 @@ func Mul(a, b *Term) *Term {
 	if b.IsConstInt() && b.I.Cmp(big.NewInt(1)) == 0 {
 		return a
 	}
-	return &Term{Op: "*", Args: []*Term{a, b}, Sort: SInt}
+	return mk(&Term{Op: "*", Args: []*Term{a, b}, Sort: SInt})
 }
 
 // Div / Mod: SMT-LIB euclidean; callers handle Go truncation for signed operands.
@@ -331,7 +379,7 @@ func Div(a, b *Term) *Term {
 		q.DivMod(a.I, b.I, m)
 		return IntB(q)
 	}
-	return &Term{Op: "div", Args: []*Term{a, b}, Sort: SInt}
+	return mk(&Term{Op: "div", Args: []*Term{a, b}, Sort: SInt})
 }
 func Mod(a, b *Term) *Term {
 	if a.IsConstInt() && b.IsConstInt() && b.I.Sign() != 0 {
@@ -340,7 +388,7 @@ func Mod(a, b *Term) *Term {
 		q.DivMod(a.I, b.I, m)
 		return IntB(m)
 	}
-	return &Term{Op: "mod", Args: []*Term{a, b}, Sort: SInt}
+	return mk(&Term{Op: "mod", Args: []*Term{a, b}, Sort: SInt})
 }
 
 func ArrSort(k, v string) string { return "(Array " + k + " " + v + ")" }
@@ -363,15 +411,15 @@ func Select(a, i *Term) *Term {
 	if cur.Op == "constarr" {
 		return cur.Args[0]
 	}
-	return &Term{Op: "select", Args: []*Term{cur, i}, Sort: vs}
+	return mk(&Term{Op: "select", Args: []*Term{cur, i}, Sort: vs})
 }
 func Store(a, i, v *Term) *Term {
-	return &Term{Op: "store", Args: []*Term{a, i, v}, Sort: a.Sort}
+	return mk(&Term{Op: "store", Args: []*Term{a, i, v}, Sort: a.Sort})
 }
 
 // ConstArr is a constant array ((as const S) v).
 func ConstArr(sort string, v *Term) *Term {
-	return &Term{Op: "constarr", Args: []*Term{v}, Sort: sort}
+	return mk(&Term{Op: "constarr", Args: []*Term{v}, Sort: sort})
 }
 
 func arrValSort(s string) string {
@@ -549,7 +597,7 @@ func rebuild(x *Term, args []*Term) *Term {
 	case "store":
 		return Store(args[0], args[1], args[2])
 	}
-	return &Term{Op: x.Op, Args: args, Sort: x.Sort, Name: x.Name, I: x.I, B: x.B}
+	return mk(&Term{Op: x.Op, Args: args, Sort: x.Sort, Name: x.Name, I: x.I, B: x.B})
 }
 
 // ---- SMT-LIB printing ----
@@ -636,30 +684,64 @@ func (d *smtDecls) print(sb *strings.Builder, seqMode bool) {
 // functions that are defined (not declared) in Seq mode
 var seqBuiltin = map[string]bool{}
 
-func smtRender(t *Term) string {
-	// constarr needs special syntax
-	if !strings.Contains(t.Key(), "constarr") {
-		return t.Key()
-	}
-	var rec func(*Term) string
-	rec = func(x *Term) string {
-		if x.Op == "constarr" {
-			return "((as const " + x.Sort + ") " + rec(x.Args[0]) + ")"
-		}
-		if len(x.Args) == 0 {
-			return x.Key()
-		}
-		var sb strings.Builder
-		if x.Op == "app" {
-			sb.WriteString("(" + x.Name)
-		} else {
-			sb.WriteString("(" + x.Op)
+// smtDefs prints the given assertions with every shared non-leaf subterm defined once
+// (define-fun t!N () Sort ...), so the output is linear in the size of the term DAG.
+func smtDefs(sb *strings.Builder, asserts []*Term) {
+	uses := map[*Term]int{}
+	var count func(*Term)
+	count = func(x *Term) {
+		uses[x]++
+		if uses[x] > 1 {
+			return
 		}
 		for _, a := range x.Args {
-			sb.WriteString(" " + rec(a))
+			count(a)
 		}
-		sb.WriteString(")")
-		return sb.String()
 	}
-	return rec(t)
+	for _, a := range asserts {
+		count(a)
+	}
+	names := map[*Term]string{}
+	var emit func(*Term) string
+	emit = func(x *Term) string {
+		if n, ok := names[x]; ok {
+			return n
+		}
+		var txt string
+		switch x.Op {
+		case "int", "bool", "var":
+			var b strings.Builder
+			x.renderTo(&b, 0, 1<<30)
+			return b.String()
+		case "constarr":
+			txt = "((as const " + x.Sort + ") " + emit(x.Args[0]) + ")"
+		default:
+			head := x.Op
+			if x.Op == "app" {
+				head = x.Name
+			}
+			if len(x.Args) == 0 {
+				return head
+			}
+			var b strings.Builder
+			b.WriteString("(" + head)
+			for _, a := range x.Args {
+				b.WriteByte(' ')
+				b.WriteString(emit(a))
+			}
+			b.WriteString(")")
+			txt = b.String()
+		}
+		if uses[x] > 1 && len(txt) > 24 {
+			n := "t!" + strconv.Itoa(x.id)
+			fmt.Fprintf(sb, "(define-fun %s () %s %s)\n", n, x.Sort, txt)
+			names[x] = n
+			return n
+		}
+		names[x] = txt
+		return txt
+	}
+	for _, a := range asserts {
+		sb.WriteString("(assert " + emit(a) + ")\n")
+	}
 }
